@@ -561,6 +561,11 @@ func runC14(cfg *vh.Config) error {
 		caseNo++
 	}
 
+	// ---- stream: history. families of DIFFERENT bundles that share file paths, compiled and printed one after
+	// the other in one fresh process, each compared with the process that handled it first (c14hist.go)
+	runC14History(cfg, res, caseNo, distinct)
+	caseNo++
+
 	// ---- stream: printing one descriptor many times. protobuf ranges over extension fields and map
 	// entries in a random order per call, so repeated printing explores those orders directly.
 	// (a) a descriptor without source info whose message/service/method carry extensions that sit
